@@ -105,10 +105,16 @@ def normal_slot(kind, i):
         return task(('debug', lit(S(i) + " ") + [('v', ['lv'])]), vars=[('lv', lit('L') + [('v', ['b'])])])
     if kind == 10:
         return task(('command', 'k%d' % i, '', 0), changed_when=('bool', False), loop=[lit('p'), lit('q')])
+    if kind == 12:
+        return task(('debug', lit("<<t%d." % i) + [('v', ['item'])] + lit(">>")), loop=[lit('x'), lit('y'), lit('z')],
+                    vars=[('n', lit('N') + [('v', ['item'])])], when=('eq', ('var', ['n']), ('str', 'Ny')))
+    if kind == 13:
+        return task(('command', 'k%d' % i, '', 0), loop=[lit('p'), lit('q')], vars=[('n', lit('N') + [('v', ['item'])])],
+                    when=('ne', ('var', ['n']), ('str', 'Np')), register='r%d' % i)
     return task(('debugvar', ['b']))
 
 
-NKINDS = 12
+NKINDS = 15
 
 
 def failing_slot(fk, i, ignore):
@@ -170,40 +176,62 @@ def c01(run, replay=None):
 
 # ---------------------------------------------------------------- C02
 def reads(i):
-    """a probe task printing the current values of a, b and whether item is defined"""
-    return task(('debug', lit(S(i) + " a=") + [('v', ['a'])] + lit(" b=") + [('v', ['b'])] + lit(" item=") + [('e', ('def', ['item']))]))
+    """a probe task printing the current values of a, b and which of z / item / rg are defined"""
+    return task(('debug', lit(S(i) + " a=") + [('v', ['a'])] + lit(" b=") + [('v', ['b'])] + lit(" z=") + [('e', ('def', ['z']))] +
+                 lit(" item=") + [('e', ('def', ['item']))] + lit(" rg=") + [('e', ('def', ['rg']))]))
+
+
+def c02_step(rng, i):
+    """one randomly decorated task: module x vars x when x loop x register x ignore_errors"""
+    looped = rng.random() < 0.35
+    m = rng.randrange(7)
+    tag = "<<s%d>> " % i
+    if m == 0:
+        mod = ('debug', lit(tag + "a=") + [('v', ['a'])] + (lit(" it=") + [('v', ['item'])] if looped else []))
+    elif m == 1:
+        mod = ('setvars', [(rng.choice("ab"), lit('s%d' % i) + ([('v', ['item'])] if looped and rng.random() < 0.5 else []))])
+    elif m == 2:
+        mod = ('setvars', [('a', lit('m%d' % i)), ('b', [('v', ['a'])] + lit('x'))])
+    elif m == 3:
+        mod = ('command', 'k%d' % i, 'o%d' % i, 0)
+    elif m == 4:
+        mod = ('command', 'k%df' % i, '', 1)
+    elif m == 5:
+        mod = ('assert', [('eq', ('var', ['a']), ('str', rng.choice(['va', 'nope', 'T%d' % i])))])
+    else:
+        mod = ('debugvar', ['a'])
+    t = task(mod)
+    if m in (4, 5):
+        t["ignore"] = True
+    if m == 3 and rng.random() < 0.7:
+        t["register"] = 'rg'
+    r = rng.random()
+    if r < 0.3:
+        t["vars"] = [('a', lit('T%d' % i))]
+    elif r < 0.45:
+        t["vars"] = [('z', lit('Z%d' % i) + ([('v', ['item'])] if looped else []))]
+    elif r < 0.55:
+        t["vars"] = [('a', lit('T%d' % i)), ('z', [('v', ['a'])] + lit('q'))]
+    if looped:
+        t["loop"] = rng.choice([[lit('p'), lit('q')], [lit('x'), [('v', ['a'])], lit('y')], [lit('only')]])
+    r = rng.random()
+    if r < 0.2:
+        t["when"] = ('bool', False)
+    elif r < 0.3:
+        t["when"] = ('eq', ('var', ['a']), ('str', 'never'))
+    elif r < 0.4:
+        t["when"] = ('ne', ('var', ['a']), ('str', 'never'))
+    elif r < 0.55 and looped:
+        t["when"] = ('ne', ('var', ['item']), ('str', rng.choice(['q', 'p', 'x', 'y'])))
+    elif r < 0.62 and t["vars"]:
+        t["when"] = ('eq', ('var', [t["vars"][0][0]]), ('str', 'never'))
+    return t
 
 
 def c02_history(rng, n):
     ts = [INIT, reads(0)]
     for i in range(1, n + 1):
-        k = rng.randrange(11)
-        if k == 0:
-            ts.append(task(('setvars', [(rng.choice("ab"), lit('s%d' % i))])))
-        elif k == 1:
-            ts.append(task(('command', 'k%d' % i, 'o%d' % i, 0), register=rng.choice("ab")))
-            ts.append(task(('debug', lit(S(i) + "reg ") + [('v', ['a', 'changed']) if ts[-1]["register"] == 'a' else ('v', ['b', 'changed'])])))
-            ts.append(task(('setvars', [('a', lit('r%d' % i)), ('b', lit('rb%d' % i))])))
-        elif k == 2:
-            ts.append(task(('debug', lit(S(i) + "shadow a=") + [('v', ['a'])]), vars=[('a', lit('T%d' % i))]))
-        elif k == 3:
-            ts.append(task(('debug', lit(S(i) + "loop ") + [('v', ['item'])] + lit(" a=") + [('v', ['a'])]), loop=[lit('x'), [('v', ['a'])]]))
-        elif k == 4:
-            ts.append(task(('setvars', [('a', lit('L') + [('v', ['item'])])]), loop=[lit('p'), lit('q')]))
-        elif k == 5:
-            ts.append(task(('debug', lit(S(i) + "when")), when=('eq', ('var', ['a']), ('str', 's%d' % (i - 1)))))
-        elif k == 6:
-            ts.append(task(('setvars', [('a', lit('skipped'))]), when=('bool', False)))
-        elif k == 7:
-            ts.append(task(('command', 'k%df' % i, '', 1), ignore=True, register='a'))
-        elif k == 8:
-            ts.append(task(('setvars', [('b', [('v', ['a'])] + lit('+'))])))
-        elif k == 9:
-            ts.append(task(('assert', [('eq', ('var', ['a']), ('str', 'T%d' % i))]), vars=[('a', lit('T%d' % i))], ignore=True))
-        else:
-            ts.append(task(('command', 'k%dr' % i, 'x', 0), register='a', loop=[lit('p'), lit('q')]))
-            ts.append(task(('debug', lit(S(i) + "lreg ") + [('v', ['a', 'output'])])))
-            ts.append(task(('setvars', [('a', lit('z%d' % i))])))
+        ts.append(c02_step(rng, i))
         ts.append(reads(i))
     return ts
 
@@ -274,8 +302,11 @@ def c11(run, replay=None):
     body = "- command: \"echo kmain >> ROOT/log\"\n- debug:\n    msg: \"<<ran>>\"\n"
     docA = "#\n# Usage:\n#   prog (install|update|help) [<filters>...]\n#\n"
     docB = "#\n# Usage:\n#   prog [--help] <foo>\n#\n"
+    docC = ("#\n# Usage:\n#   prog (install|update|help) [<filters>...]\n#   prog -h | --help\n#\n# Options:\n#   -h,--help   Show this screen\n#\n")
     dcases = []
-    for doc, argv, expect in [(docA, ["nope"], "reject"), (docA, [], "reject"), (docA, ["install"], "run"), (docA, ["update", "f1", "f2"], "run"),
+    for doc, argv, expect in [(docC, ["--help"], "help"), (docC, ["-h"], "help"), (docC, ["help"], "help"), (docC, ["install"], "run"),
+                              (docC, ["bogus"], "reject"), (docC, ["install", "f1"], "run"),
+                              (docA, ["nope"], "reject"), (docA, [], "reject"), (docA, ["install"], "run"), (docA, ["update", "f1", "f2"], "run"),
                               (docA, ["help"], "help"), (docA, ["install", "update"], "run"), (docA, ["--bogus"], "reject"),
                               (docB, ["--help"], "help"), (docB, ["v"], "run"), (docB, [], "reject"), (docB, ["v", "w"], "reject"),
                               (docB, ["--help", "v"], "help")]:
@@ -310,7 +341,10 @@ def c17(run, replay=None):
     for n in range(nt):
         files = {}
         depth = rng.randint(1, 3)
-        names = ["main.rh", "inc_a.rh", "sub/inc_b.rh", "sub/deep/inc_c.rh"][:depth + 1]
+        others = ["inc_a.rh", "sub/inc_b.rh", "sub/deep/inc_c.rh"]
+        rng.shuffle(others)
+        names = ["main.rh"] + others[:depth]
+        relative = rng.random() < 0.6      # include paths written relative to the working directory (= ROOT)
         for d in range(depth, -1, -1):
             ts = []
             if d == 0:
@@ -320,6 +354,7 @@ def c17(run, replay=None):
                 ts.append(task(('command', 'kf%d' % d, '', 0)))
             if d < depth:
                 inc = task(('include', names[d + 1]))
+                inc["relative"] = relative
                 r = rng.random()
                 if r < 0.25:
                     inc["loop"] = [lit('x'), lit('y')]
